@@ -90,6 +90,16 @@ static void dump(struct conf_node_object *obj, int depth)
     }
 }
 
+static void hook_all(struct conf_node_base *b)
+{
+    b->hook = hook;
+    if (b->type == CONF_OBJECT) {
+        struct set_node *it;
+        for (it = set_first(&((struct conf_node_object *)b)->contents); it; it = set_next(it))
+            hook_all(set_node_data(it));
+    }
+}
+
 static struct conf_node_object *find_parent(char *path, char **leaf)
 {
     struct conf_node_object *obj = NULL; /* NULL = root */
@@ -118,6 +128,15 @@ int main(void)
         if (!strcmp(argv[0], "load") && argc == 2) {
             int res = conf_read(argv[1]);
             printf("LOAD %s\n", res ? "ERR" : "OK");
+        } else if (!strcmp(argv[0], "hookall")) {
+            /* attach the logging hook to every node (as log.c does for the children of its section), except the logs section */
+            struct set_node *it;
+            for (it = set_first(&conf_get_root()->contents); it; it = set_next(it)) {
+                struct conf_node_base *b = set_node_data(it);
+                if (!strcasecmp(b->name, "logs")) continue;
+                hook_all(b);
+            }
+            puts("REG");
         } else if (!strcmp(argv[0], "dump")) {
             dump(conf_get_root(), 0);
             puts("END");
